@@ -30,6 +30,12 @@ pub struct World {
     pub entropy_calls: u64,
     pub now_unix: i64,
     pub clock_reads: u64,
+    /// The monotonic clock of the simulated process (nanoseconds): starts at a seed-dependent "time
+    /// since boot", advances by 1 microsecond per reading and by the simulated network's latency.
+    pub mono_ns: u64,
+    /// decides the latency of each simulated request of this process (not the entropy stream)
+    pub latency_seed: u64,
+    pub requests_timed: u64,
     pub pid: i32,
     /// Calls on simulator-owned objects that the model does not implement
     /// (fail-closed: the caller sees an error, the harness sees this list).
@@ -46,6 +52,9 @@ impl World {
             entropy_calls: 0,
             now_unix: 0,
             clock_reads: 0,
+            mono_ns: 0,
+            latency_seed: 0,
+            requests_timed: 0,
             pid: 4242,
             unmodelled: vec![],
         }
@@ -212,6 +221,16 @@ pub unsafe extern "C" fn clock_gettime(clk: libc::clockid_t, ts: *mut libc::time
         });
         (*ts).tv_sec = now;
         (*ts).tv_nsec = 0;
+        return 0;
+    }
+    if in_sim() && !ts.is_null() && (clk == libc::CLOCK_MONOTONIC || clk == libc::CLOCK_MONOTONIC_RAW || clk == libc::CLOCK_MONOTONIC_COARSE || clk == libc::CLOCK_BOOTTIME) {
+        let ns = with_world(|w| {
+            w.clock_reads += 1;
+            w.mono_ns += 1_000;
+            w.mono_ns
+        });
+        (*ts).tv_sec = (ns / 1_000_000_000) as libc::time_t;
+        (*ts).tv_nsec = (ns % 1_000_000_000) as libc::c_long;
         return 0;
     }
     match real!("clock_gettime", unsafe extern "C" fn(libc::clockid_t, *mut libc::timespec) -> c_int) {
@@ -1399,3 +1418,13 @@ macro_rules! sendfile_fn {
 }
 sendfile_fn!(sendfile, "sendfile");
 sendfile_fn!(sendfile64, "sendfile64");
+
+/// The simulated network took its time: the process's monotonic clock moves on by a latency that
+/// depends on the process (its seed) and on how many requests it has made - between 1 and ~300 ms.
+pub fn simulated_request_latency() {
+    with_world(|w| {
+        w.requests_timed += 1;
+        let ms = 1 + crate::prng::mix(w.latency_seed, w.requests_timed, 0x1A7E) % 300;
+        w.mono_ns += ms * 1_000_000;
+    });
+}
